@@ -27,6 +27,7 @@ def run(ctx, db, tier):
     close_wakes_all(ctx, db)
     locks.check_guarded(ctx, db, 'C16.locks', {k: v for k, v in GUARDED.items() if k.startswith(PQ)}, [PQ, 'cocls::publisher', 'cocls::subscriber'], per_instance=False, floor=15)
     subscriber_protocol(ctx, db)
+    end_of_stream(ctx, db)
 
 
 def advance_before_read(ctx, db):
@@ -252,3 +253,32 @@ def subscriber_protocol(ctx, db):
             cs = [e for e in f.events() if e.k == 'call' and norm(e.get('callee')) == callee]
             ok = len(cs) == 1 and (cs[0].get('args') or [{}])[0].get('path') == 'this->_h'
             ctx.ob(rid, f, f['key'], ok, '%s calls %s once with its own handle' % (name.split('::')[-1], callee.split('::')[-1]), desc='%s does not call %s with its own handle' % (name, callee))
+
+
+def end_of_stream(ctx, db):
+    rid = ctx.rule('C16.end-of-stream', 'PATHS', 'get_value_lk reports end-of-stream (empty optional) on every path where the registration is kicked or has caught up with the stream position, '
+                   'and only a path that excluded both may index the retained window', floor=1)
+    T = Tracer(db, depth=0)
+    for f in db.need('cocls::publisher::queue::get_value_lk')[:1]:
+        bad = None; nend = nval = 0
+        for tr in [t for t in T.traces(f) if live(t)]:
+            kicked = None; caught = None
+            for it in tr:
+                if it.k == 'branch' and re.search(r'\._kicked$', it.path or ''):
+                    kicked = bool(it.val)
+                if it.k == 'branch' and re.fullmatch(r'\(\S+\._pos == this->_pos\)|\(this->_pos == \S+\._pos\)', it.path or ''):
+                    caught = bool(it.val)
+            idx = [it for it in tr if it.k == 'call' and norm(it.get('field') or '') == 'cocls::publisher::queue::_q' and norm(it.get('callee') or '').endswith('operator[]')]
+            ret = [it for it in tr if it.k == 'return']
+            empty = bool(ret) and (ret[-1].get('path') in ('{}', 'ctor()', '<InitListExpr>') or 'nullopt' in (ret[-1].get('path') or ''))
+            if kicked is True or caught is True:
+                nend += 1
+                if idx or not empty:
+                    bad = bad or 'a kicked / caught-up subscriber is handed a value instead of end-of-stream'
+            if idx:
+                nval += 1
+                if kicked is not False or caught is not False:
+                    bad = bad or 'the window is indexed on a path that did not exclude kicked and caught-up'
+        if not bad and (nend == 0 or nval == 0):
+            bad = 'get_value_lk lost its outcomes'
+        ctx.ob(rid, f, f['key'], bad is None, 'end iff kicked or caught up' + ('' if not bad else ' -- ' + bad), desc=bad)
